@@ -92,6 +92,7 @@ func init() {
 			{Name: "frames-arrive-while-a-write-is-stalled", Mode: "enum", Reset: kit.ResetGlobals, Body: duplexStalled, NeedCounters: []string{"stalled-write-exact"}},
 			{Name: "conformant-peer-beside-truncated-or-stalled-handshakes", Mode: "enum", Reset: kit.ResetGlobals, Body: hsTruncated, NeedCounters: []string{"stalled-does-not-delay-others"}},
 			{Name: "handshake-aborted-then-conformant-peer", Mode: "enum", Reset: kit.ResetGlobals, Body: c13.TCPAborted},
+			{Name: "conformant-peers-behind-refused-handshakes", Mode: "enum", Reset: kit.ResetGlobals, Body: RefusedInARow, NeedCounters: []string{"three-good-peers-at-once-behind-a-refusal"}},
 			{Name: "two-connections-one-stalled-framing", Mode: "enum", Reset: kit.ResetGlobals, Body: stalledFraming, NeedCounters: []string{"stalled-stream-exact"}},
 		}
 	})
@@ -352,6 +353,29 @@ func RefusedInARow() {
 	if n >= 3 {
 		kit.Count("good-peer-served-promptly-after-three-or-more-refusals")
 	}
+	// one more refusal, and right behind it three well-behaved peers at the same instant (their
+	// handshakes finish while the accept loop pauses): each of them is attached and served
+	bad := v.ep.Connect()
+	bh := spHeader(v.x.S.Info().Peer)
+	bh[5] ^= 0x11
+	bad.Feed(bh)
+	before = v.attached
+	var gs []*net.VConn
+	for i := 0; i < 3; i++ {
+		c := v.ep.Connect()
+		c.Feed(spHeader(v.x.S.Info().Peer))
+		gs = append(gs, c)
+	}
+	kit.Quiesce()
+	kit.Sleep(time.Second)
+	kit.Quiesce()
+	if v.attached != before+3 {
+		kit.Failf("good-peers-forgotten-after-a-refusal", "%s over %s: three well-behaved peers connected right behind a refused handshake; %d of them were attached", k.Name, scheme, v.attached-before)
+	}
+	for i, c := range gs {
+		v.exchange(c, fmt.Sprintf("peer %d of three behind a refused handshake", i))
+	}
+	kit.Count("three-good-peers-at-once-behind-a-refusal")
 	kit.Observe("%s %s n=%d how=%d", scheme, k.Name, n, how)
 	kit.Must("Close", func() { _ = v.x.S.Close() })
 }
